@@ -66,6 +66,7 @@ class SaslLowerer(Lowerer):
         self.pipelines = {}      # VarDecl id -> {'source': node, 'stages': [...], 'name': str}
         self.pending_pipeline = None
         self.inline_ret = None   # (result tmp or None, label) while a lambda body is expanded as statements
+        self.static_tables = {}  # VarDecl id -> (C name, element C type, count, (first, second) C types of a pair element or None)
         self.nlabel = 0
 
     # ------------------------------------------------------------------ types
@@ -101,6 +102,102 @@ class SaslLowerer(Lowerer):
         if n.get('kind') == 'DoStmt':
             return self.do_once(n, ind)
         return super().stmt(n, ind)
+
+    # ------------------------------------------------------------------ function-local `static constexpr` constants and tables
+    def static_local(self, v, sp):
+        """`static constexpr T x = <constant>;` inside a function has the same value on every call: an ordinary const local.
+        `static constexpr auto t = to_array<E>({...})` / std::array<E, N>{...}: a const C array; E may be std::pair<A, B>."""
+        if ('static:' + v['name']) in self.p.calls:
+            return super().static_local(v, sp)
+        if not v.get('constexpr'):
+            raise Unsupported('static local %s is not constexpr' % v.get('name'))
+        m = re.match(r'std::array<(.*),\s*(\d+)(UL)?>$', strip_type(dqt(v)))
+        if not m:
+            self.fire('static-constexpr:scalar')
+            v2 = dict(v)
+            v2.pop('storageClass')
+            return self.vardecl(v2, sp)
+        n = int(m.group(2))
+        et = canon(m.group(1))
+        init = self.skip(children(v)[0])
+        if init.get('kind') == 'CallExpr' and self.callee_ref(init).get('name') == 'to_array' and len(init['inner']) == 2:
+            init = self.skip(init['inner'][1])
+        if init.get('kind') != 'InitListExpr' or len(children(init)) != n:
+            raise Unsupported('static table %s is not built from %d initialisers' % (v['name'], n))
+        pm = re.match(r'std::pair<(.*)>$', et)
+        self.pre = []
+        if pm:
+            ta, tb = [self.ctype(x) for x in split_top(pm.group(1))]
+            cet = 'pair_%s_%s' % (re.sub(r'\W+', '_', ta), re.sub(r'\W+', '_', tb))
+            if cet not in self.names:
+                self.names.add(cet)
+                self.emit('%stypedef struct { %s first; %s second; } %s;   /* std::pair */' % (sp, ta, tb, cet))
+            elems = []
+            for e in children(init):
+                e = self.skip(e)
+                args = children(e)
+                if e.get('kind') != 'CXXConstructExpr' or len(args) != 2:
+                    raise Unsupported('static table %s: element is not pair(a, b)' % v['name'])
+                elems.append('{ %s, %s }' % (self.table_value(args[0], ta), self.table_value(args[1], tb)))
+            fields = (ta, tb)
+        else:
+            cet = self.ctype(et)
+            elems = [self.table_value(e, cet) for e in children(init)]
+            fields = None
+        if self.pre:
+            raise Unsupported('static table %s needs temporaries' % v['name'])
+        self.fire('static-constexpr:table')
+        cn, _ = self.declare_local(v, sp, ctype=cet + '*')
+        self.emit('%sconst %s %s[%d] = { %s };   /* static constexpr table */' % (sp, cet, cn, n, ', '.join(elems)))
+        self.static_tables[v['id']] = (cn, cet, n, fields)
+
+    def table_value(self, e, ct):
+        e0 = self.skip(e)
+        if e0.get('kind') == 'StringLiteral' or (e0.get('kind') == 'CXXConstructExpr' and children(e0) and self.skip(children(e0)[0]).get('kind') == 'StringLiteral'):
+            if ct not in self.p.string_types:
+                raise Unsupported('string literal in a table of %s' % ct)
+            return self.string_literal(e0)
+        if not self.pure(e0):
+            raise Unsupported('table element with side effects')
+        return self.expr(e0)
+
+    def rangefor(self, n, ind):
+        init, rng, beg, end, cond, inc, lv, body = n['inner']
+        rv = children(rng)[0]
+        rinit = self.skip(children(rv)[0])
+        tab = self.static_tables.get(rinit.get('referencedDecl', {}).get('id')) if rinit.get('kind') == 'DeclRefExpr' else None
+        if tab is None:
+            return super().rangefor(n, ind)
+        if init.get('kind'):
+            raise Unsupported('range-for with init statement over a static table')
+        cn, cet, cnt, fields = tab
+        sp = '  ' * ind
+        self.fire('rangefor:static-table')
+        num = self.loops
+        self.loops += 1
+        idx = '__i%d' % num
+        self.names.add(idx)
+        self.emit(sp + '{')
+        self.emit('%s  size_t %s = 0;' % (sp, idx))
+        self.emit('%s  for (; %s < %d; %s++)' % (sp, idx, cnt, idx))
+        self.emit('%s  /*@LOOP%d@*/' % (sp, num))
+        self.emit(sp + '  {')
+        d = children(lv)[0]
+        if d.get('kind') == 'DecompositionDecl':
+            binds = [c for c in children(d) if c.get('kind') == 'BindingDecl']
+            if fields is None or len(binds) != 2:
+                raise Unsupported('structured binding over a table that does not hold pairs')
+            for b, f, ct in zip(binds, ('first', 'second'), fields):
+                bn, _ = self.declare_local(b, sp, ctype=ct)
+                self.emit('%s    const %s %s = %s[%s].%s;' % (sp, ct, bn, cn, idx, f))
+        elif d.get('kind') == 'VarDecl':
+            vn, vt = self.declare_local(d, sp, ctype=cet)
+            self.emit('%s    const %s %s = %s[%s];' % (sp, vt, vn, cn, idx))
+        else:
+            raise Unsupported('range-for variable %s' % d.get('kind'))
+        self.block(body, ind + 2)
+        self.emit(sp + '  }')
+        self.emit(sp + '}')
 
     def do_once(self, n, ind):
         body, cond = children(n)
